@@ -99,8 +99,10 @@ class ArrayConstraintBuilder(ConstraintOverrideVisitor):
                         c.accept(self)
 
         if len(self.foreach_scope_s) > 1:
+            # The expansion of a nested foreach takes the place of the 
+            # statement: inside the enclosing if/implies body, if any
             for c in scope.constraint_l:
-                self.foreach_scope_s[-2].constraint_l.append(c)
+                self.constraints.append(c)
 
         self.index_set.remove(f.index)
         self.foreach_scope_s.pop()
